@@ -86,3 +86,18 @@ def pmap(fn, items, jobs=None, chunk=200):
     ctx = mp.get_context('fork')
     with ctx.Pool(jobs) as pool:
         return pool.map(fn, items, chunksize=chunk)
+
+
+def padded_env_docs():
+    """Environments whose name group is padded with blanks (the parser strips names): verbatim-like,
+    math and ordinary names, with bodies whose meaning depends on how the environment is classified."""
+    names = ['verbatim', 'lstlisting', 'equation', 'align*', 'math', 'itemize', 'a']
+    pads = [('', ''), (' ', ''), ('', ' '), (' ', ' '), ('\n', ''), ('', '\t')]
+    bodies = ['x', '\\textbf {b}', '\\item y', '$a$', '{u}', '\\x[1]{2}', 'p \\cup [0,1)']
+    out = []
+    for n in names:
+        for lp, rp in pads:
+            for b in bodies:
+                out.append('\\begin{%s%s%s}%s\\end{%s}' % (lp, n, rp, b, n))
+                out.append('\\begin{%s%s%s}%s\\end{%s%s%s}' % (lp, n, rp, b, lp, n, rp))
+    return out
